@@ -57,7 +57,10 @@ def valid_project(seed):
     # a few equal procedure names at file level shared with corruption donors (page-name allocation)
     out["k_shared.f90"] = ("subroutine init()\n!! doc zc20a\nend subroutine init\n"
                            "module shared_names\n!! doc\ncontains\nsubroutine setup()\n!! doc\nend subroutine setup\n"
-                           "subroutine finish()\n!! doc\nend subroutine finish\nend module shared_names\n")
+                           "subroutine finish()\n!! doc\nend subroutine finish\n"
+                           "subroutine caller()\n!! doc\ninteger :: k\ncall setup()\ncall finish()\ncall init()\nk = helper_fn(1)\nend subroutine caller\n"
+                           "integer function helper_fn(i)\n!! doc\ninteger, intent(in) :: i\nhelper_fn = i\nend function helper_fn\n"
+                           "end module shared_names\n")
     return out, donors, lay
 
 
@@ -116,6 +119,13 @@ def corruptions(seed, donors, lay, every_boundary):
         res.append(("nul_bytes", False, True, b[:cut] + b"\x00\x00" + b[cut:]))
         res.append(("unbalanced_quote", False, True, foreign(full).replace("::", ":: 'oops", 1).encode() if "::" in full else b"character :: c = 'oops\n"))
     res += [
+        # cut inside an ASSOCIATE construct whose associate-names are names that valid files reference
+        ("truncated_inside_associate", False, True, b"subroutine cut_assoc()\ninteger :: w(3)\nassociate (init => w, setup => w(1), helper_fn => w)\ncall finish()\nw(1) = helper_fn(2)\n"),
+        ("truncated_inside_associate", False, True, b"module cut_assoc_m\ncontains\nsubroutine ca()\nreal :: q(2)\nassociate (finish => q)\nassociate (helper_fn => q, setup => q)\nq = 1\nend associate\n"),
+        # statements that start like a NAMELIST and go on with junk, or name several groups
+        ("namelist_followed_by_junk", False, True, b"module nl_junk\ninteger :: aaaaaaaaaaaaaaaaaaaaaaaaaaaaaaaaaaaaaaaaaaaaaaaaaaaa, b\nnamelist /grp/ aaaaaaaaaaaaaaaaaaaaaaaaaaaaaaaaaaaaaaaaaaaaaaaaaaaa, b (\nend module nl_junk\n"),
+        ("namelist_followed_by_junk", False, True, b"module nl_junk2\ninteger :: long_variable_name_number_one, long_variable_name_number_two, c\nnamelist /g1/ long_variable_name_number_one, long_variable_name_number_two /g2/ c\nend module nl_junk2\n"),
+        ("namelist_followed_by_junk", False, True, b"namelist /g/ xxxxxxxxxxxxxxxxxxxxxxxxxxxxxxxxxxxxxxxxxxxxxxxx yyyyyyyyyyyyyyyyyyyyyyyyyyyyyyy = 3 )) &\n"),
         ("arbitrary_text", False, True, b"Lorem ipsum dolor sit amet,\nconsectetur (adipiscing elit; sed & do\n eiusmod tempor <<< >>> incididunt\n"),
         ("arbitrary_text", False, True, "\n".join("".join(rng.choice("abc xyz()&!'\"=,:;%<>0123") for _ in range(rng.randint(1, 60))) for _ in range(rng.randint(1, 30))).encode()),
         ("ampersand_only", False, True, b"&\n"),
